@@ -119,4 +119,148 @@ theorem parseTarget_plain_any (raw : Bytes) (hq : ∀ c ∈ raw, c ≠ 35 ∧ c 
   simp only [bind, Except.bind, pure, Except.pure]
   exact ⟨_, rfl, rfl, rfl, rfl⟩
 
+/-! ## the canonical forms `bytes=first-last`, `bytes=first-` -/
+
+def IsDigits (v : Bytes) : Prop := v.all (fun c => decide (48 ≤ c) && decide (c ≤ 57)) = true
+
+theorem splitByte_no_sep (sep : UInt8) (x : Bytes) (hx : ∀ c ∈ x, c ≠ sep) : splitByte sep x = [x] := by
+  induction x with
+  | nil => rfl
+  | cons c t ih =>
+    have hc : (c == sep) = false := by simpa using hx c (by simp)
+    simp [splitByte, ih (fun d hd => hx d (by simp [hd])), hc]
+
+theorem splitByte_two (sep : UInt8) (x y : Bytes) (hx : ∀ c ∈ x, c ≠ sep) (hy : ∀ c ∈ y, c ≠ sep) :
+    splitByte sep (x ++ sep :: y) = [x, y] := by
+  induction x with
+  | nil => simp [splitByte, splitByte_no_sep sep y hy]
+  | cons c t ih =>
+    have hc : (c == sep) = false := by simpa using hx c (by simp)
+    simp [splitByte, ih (fun d hd => hx d (by simp [hd])), hc]
+
+theorem digit_mem {v : Bytes} (hd : IsDigits v) {c : UInt8} (hc : c ∈ v) : 48 ≤ c ∧ c ≤ 57 := by
+  have := (List.all_eq_true.mp hd) c hc
+  simpa using this
+
+theorem myatoi_digits (bits : Nat) (v : Bytes) (hd : IsDigits v) : myatoi bits v = atoiDigits bits v 0 := by
+  cases v with
+  | nil => rfl
+  | cons a t =>
+    have ha := digit_mem hd (c := a) (by simp)
+    unfold myatoi
+    split
+    · rename_i heq; simp only [List.cons.injEq] at heq; rw [heq.1] at ha; exact absurd ha.1 (by decide)
+    · rename_i heq; simp only [List.cons.injEq] at heq; rw [heq.1] at ha; exact absurd ha.1 (by decide)
+    · rfl
+
+theorem posOf_digits (v : Bytes) (hd : IsDigits v) (hl : v.length ≤ 9) :
+    posOf v = (decFold v 0 : Int) ∧ decFold v 0 < 10 ^ 9 := by
+  have hlt := decFold_lt v hd 0
+  have hpow : 10 ^ v.length ≤ 10 ^ 9 := Nat.pow_le_pow_right (by decide) hl
+  have hb : decFold v 0 < 10 ^ 9 := by omega
+  refine ⟨?_, hb⟩
+  unfold posOf
+  have : ¬ v.length > 18 := by omega
+  simp only [this, if_false]
+  rw [digits_no_nul v hd, myatoi_digits 64 v hd]
+  have := atoiDigits_dec 64 (by decide) v hd 0 (by
+    have : (10 : Nat) ^ 9 < 2 ^ (64 - 1) := by decide
+    omega)
+  simpa using this
+
+theorem toInt32_small (a : Nat) (h : a < 10 ^ 9) : toInt32 (a : Int) = (a : Int) := by
+  unfold toInt32 wrap
+  have h1 : ¬ ((a : Int) > 2147483647) := by omega
+  simp only [h1, if_false]
+  omega
+
+theorem splitC_two (x y : Bytes) (hx : IsDigits x) (hy : IsDigits y) : splitC 45 (x ++ 45 :: y) = [x, y] := by
+  have hx' : ∀ c ∈ x, c ≠ 45 := by
+    intro c hc h; have := digit_mem hx hc; rw [h] at this; exact absurd this.1 (by decide)
+  have hy' : ∀ c ∈ y, c ≠ 45 := by
+    intro c hc h; have := digit_mem hy hc; rw [h] at this; exact absurd this.1 (by decide)
+  have hnn : ∀ c ∈ x ++ 45 :: y, c ≠ 0 := by
+    intro c hc h
+    simp only [List.mem_append, List.mem_cons] at hc
+    rcases hc with hc | hc | hc
+    · have := digit_mem hx hc; rw [h] at this; exact absurd this.1 (by decide)
+    · rw [h] at hc; exact absurd hc (by decide)
+    · have := digit_mem hy hc; rw [h] at this; exact absurd this.1 (by decide)
+  unfold splitC
+  simp only [cstr_of_no_nul _ hnn, List.drop_length, List.append_nil, splitByte_two 45 x y hx' hy']
+  rfl
+
+theorem rangeArgs9_canonical (n : Nat) (x y : Bytes) (hx : IsDigits x) (hx1 : x ≠ []) (hxl : x.length ≤ 9)
+    (hy : IsDigits y) (hyl : y.length ≤ 9) :
+    rangeArgs9 n (x ++ 45 :: y) = .ok ((decFold x 0 : Int), (decFold y 0 : Int)) := by
+  obtain ⟨px, bx⟩ := posOf_digits x hx hxl
+  obtain ⟨py, bY⟩ := posOf_digits y hy hyl
+  have he : x.isEmpty = false := by cases x with
+    | nil => exact absurd rfl hx1
+    | cons _ _ => rfl
+  unfold rangeArgs9
+  simp only [splitC_two x y hx hy, partAt?, List.getElem?_cons_zero, List.getElem?_cons_succ, List.length_cons, List.length_nil,
+    bind, Except.bind, pure, Except.pure, he, Bool.false_and, px, py, toInt32_small _ bx, toInt32_small _ bY]
+  simp
+
+/-- the answer RFC 7233 asks for a single `first-last` / `first-` range (apart from last = 0, which `putFile` reads as "to the end") -/
+def canonicalAnswer (n a b : Nat) : RangeAns :=
+  if b = 0 ∨ b ≥ n then (if a < n then .part a (n - 1) else .unsat)
+  else (if a ≤ b then .part a b else .unsat)
+
+theorem rangeOf_nat (n a b : Nat) :
+    (match AslModel.HttpFrame.rangeOf n (a : Int) (b : Int) with
+      | some (b', e') => RangeAns.part b' e'
+      | none => RangeAns.unsat) = canonicalAnswer n a b := by
+  unfold AslModel.HttpFrame.rangeOf canonicalAnswer
+  by_cases h1 : b = 0 ∨ b ≥ n
+  · have h1' : ((b : Int) = 0 ∨ (b : Int) ≥ (n : Int)) := by omega
+    simp only [h1, h1', if_true]
+    by_cases h2 : a < n
+    · have : ¬ ((n : Int) - 1 < (a : Int) ∨ (a : Int) < 0) := by omega
+      simp only [this, h2, if_false, if_true]
+      congr 1 <;> omega
+    · have : ((n : Int) - 1 < (a : Int) ∨ (a : Int) < 0) := by omega
+      simp only [this, h2, if_false, if_true]
+  · have h1' : ¬ ((b : Int) = 0 ∨ (b : Int) ≥ (n : Int)) := by omega
+    simp only [h1, h1', if_false]
+    by_cases h2 : a ≤ b
+    · have : ¬ ((b : Int) < (a : Int) ∨ (a : Int) < 0) := by omega
+      simp only [this, h2, if_false, if_true]
+      congr 1 <;> omega
+    · have : ((b : Int) < (a : Int) ∨ (a : Int) < 0) := by omega
+      simp only [this, h2, if_false, if_true]
+
+theorem rangeAnswer_canonical (n : Nat) (h : Dic) (x y : Bytes) (hh : hasHeader h sRange = true)
+    (hv : header h sRange = sBytesEq ++ (x ++ 45 :: y))
+    (hx : IsDigits x) (hx1 : x ≠ []) (hxl : x.length ≤ 9) (hy : IsDigits y) (hyl : y.length ≤ 9) :
+    rangeAnswer n h = .ok (canonicalAnswer n (decFold x 0) (decFold y 0)) := by
+  have hnn : ∀ c ∈ sBytesEq ++ (x ++ 45 :: y), c ≠ 0 ∧ c ≠ 44 := by
+    intro c hc
+    simp only [List.mem_append, List.mem_cons] at hc
+    rcases hc with hc | hc | hc | hc
+    · revert c; decide
+    · have := digit_mem hx hc
+      constructor <;> (intro h0; rw [h0] at this; exact absurd this.1 (by decide))
+    · rw [hc]; decide
+    · have := digit_mem hy hc
+      constructor <;> (intro h0; rw [h0] at this; exact absurd this.1 (by decide))
+  have hc0 : cstr (sBytesEq ++ (x ++ 45 :: y)) = sBytesEq ++ (x ++ 45 :: y) := cstr_of_no_nul _ (fun c hc => (hnn c hc).1)
+  have hcomma : (sBytesEq ++ (x ++ 45 :: y)).contains 44 = false := by
+    cases hcc : (sBytesEq ++ (x ++ 45 :: y)).contains 44 with
+    | false => rfl
+    | true =>
+      have := List.contains_iff_mem.mp hcc
+      exact absurd rfl (hnn 44 this).2
+  have hpre : isPrefix sBytesEq (sBytesEq ++ (x ++ 45 :: y)) = true := by simp [sBytesEq, isPrefix]
+  have hdrop : (sBytesEq ++ (x ++ 45 :: y)).drop 6 = x ++ 45 :: y := by simp [sBytesEq]
+  unfold rangeAnswer
+  simp only [hh, if_true, hv, hc0, hcomma, hpre, Bool.not_false, Bool.and_self, hdrop,
+    rangeArgs9_canonical n x y hx hx1 hxl hy hyl, bind, Except.bind]
+  have := rangeOf_nat n (decFold x 0) (decFold y 0)
+  revert this
+  cases AslModel.HttpFrame.rangeOf n (decFold x 0 : Int) (decFold y 0 : Int) with
+  | none => intro h; simp only [pure, Except.pure]; rw [← h]
+  | some p => obtain ⟨b', e'⟩ := p; intro h; simp only [pure, Except.pure]; rw [← h]
+
 end AslProofs.HttpRange
